@@ -235,11 +235,107 @@ def run(ctx):
                        not bad, "; ".join("%s -> %s" % b for b in bad[:5]), kind="correspondence")
     # 5/6. search (sentinel always; deeper when something is broken)
     search(ctx, ctx.budget(3, 9) + (6 if ctx.broken() else 0))
+    operator_probe(ctx, ctx.budget(4, 8))
+
+
+def dense_inputs(rng, in_shape, r):
+    """(label, array) inputs on which the operator must act as its weight matrix: dense, badly scaled, and — for
+    rank-2 tensors — exactly symmetric, antisymmetric and NEARLY symmetric ones (thresholds such as np.allclose
+    must not select another code path with another result)"""
+    base = rng.integers(-8, 9, size=in_shape).astype(float)
+    out = [("dense integers", base), ("scaled 1e-12", base * 1e-12), ("scaled 1e+9", base * 1e9),
+           ("constant", np.full(in_shape, 3.0)), ("zeros", np.zeros(in_shape))]
+    if r >= 2:
+        S = base + np.swapaxes(base, 0, 1)
+        A = rng.integers(-8, 9, size=in_shape).astype(float)
+        A = A - np.swapaxes(A, 0, 1)
+        out += [("exactly symmetric", S), ("antisymmetric", A), ("nearly symmetric S + 1e-6 A", S + 1e-6 * A),
+                ("nearly symmetric S + 1e-10 A", S + 1e-10 * A), ("nearly zero 1e-9 (S + A)", 1e-9 * (S + A))]
+    return out
+
+
+def operator_probe(ctx, budget):
+    """The operators are claimed to be ONE fixed linear map (the weight matrix) for every input and every call:
+    (i) dense / structured inputs: op(f) = W f, with W extracted from one-hot inputs;
+    (ii) histories on one operator object: the same buffer refilled in place between calls, the returned array
+    overwritten by the caller before the next call, interleaved axes — every call must still return W f of the
+    CURRENT contents."""
+    found = 0
+    nprng = np.random.default_rng(ctx.rng.randrange(10 ** 6))
+    specs = []
+    for order, bnd in itertools.product((2, 4, 6, 8), ("none", "periodic", "symmetric")):
+        m = order // 2
+        n = {"none": 3 * m, "periodic": 2 * m + 1, "symmetric": 2 * m + 1}[bnd] + ctx.rng.choice((0, 1, 2))
+        for ax in "xyz":
+            shape = {"x": (n, 2, 3), "y": (2, n, 3), "z": (3, 2, n)}[ax]
+            specs.append(("d3" + ax, order, bnd, shape))
+        if order <= budget:
+            nt = {"none": 3 * m, "periodic": max(m, 2), "symmetric": m + 1}[bnd]
+            for r in (1, 2, 3):
+                if r < 3 or nt <= 3:
+                    specs.append(("t%d" % r, order, bnd, (nt, nt, nt) if nt <= 4 else (nt, 2, 2)))
+    for kind, order, bnd, shape in specs:
+        try:
+            fd = make_fd(shape, order, bnd)
+        except Exception:  # noqa
+            continue
+        if kind.startswith("d3"):
+            r, op, in_shape = 0, getattr(fd, kind), tuple(shape)
+        else:
+            r = int(kind[1])
+            op = [fd.d3_scalar, fd.d3_rank1tensor, fd.d3_rank2tensor, fd.d3_rank3tensor][r]
+            in_shape = (3,) * r + tuple(shape)
+        W = weight_matrix(op, in_shape)
+        if isinstance(W, str):
+            continue
+        aW = np.abs(W)
+
+        def check(label, f, got, hist):
+            exp = W @ f.ravel()
+            # round-off: the code adds the stencil terms one by one (coinciding samples of the periodic / symmetric
+            # modes are merged in W), so the bound uses the largest sample times the largest un-merged weight sum
+            # (< 40 / spacing for orders <= 8, spacing >= 1/8), not only |W| |f|
+            tol = 64 * np.finfo(float).eps * (aW @ np.abs(f.ravel())) + 1e-11 * float(np.max(np.abs(f))) + 1e-300
+            err = np.abs(np.asarray(got).ravel() - exp)
+            ctx.count("operator_probe_evaluations")
+            if np.all(err <= tol):
+                return 0
+            o = int(np.argmax(err - tol))
+            return 1 if ctx.violation(
+                "%s order %d %s %s on input '%s'%s: output %d is %r, the weight matrix gives %r"
+                % (kind, order, bnd, list(shape), label, hist, o, float(np.asarray(got).ravel()[o]), float(exp[o])),
+                {"kind": "input", "op": kind, "order": order, "boundary": bnd, "shape": list(shape), "input": label,
+                 "history": hist, "observed": float(np.asarray(got).ravel()[o]), "expected": float(exp[o])},
+                {"site": "operator-probe", "op": kind[:2], "input": label, "history": bool(hist)}) else 0
+        inputs = dense_inputs(nprng, in_shape, r)
+        for label, f in inputs:
+            found += check(label, f, op(f.copy()), "")
+        # histories on the same operator object and the same buffer
+        buf = inputs[0][1].copy()
+        r1 = op(buf)
+        found += check("dense integers", buf.copy(), r1, " (first call on a reused buffer)")
+        g = nprng.integers(-8, 9, size=in_shape).astype(float)
+        np.copyto(buf, g)                                   # the caller refills its array in place
+        r2 = op(buf)
+        found += check("refilled buffer", g, r2, " (same array object refilled in place, called again)")
+        keep = np.array(r2, copy=True)
+        try:
+            r2[...] = -7.0                                  # the caller overwrites the array it was handed
+        except Exception:  # noqa
+            pass
+        r3 = op(buf)
+        found += check("refilled buffer", g, r3, " (after the caller overwrote the previous result)")
+        if not np.array_equal(buf, g):
+            found += 1 if ctx.violation("%s order %d %s: the operator modified its input array" % (kind, order, bnd),
+                                        {"kind": "input", "op": kind, "order": order, "boundary": bnd, "shape": list(shape)},
+                                        {"site": "operator-probe", "op": kind[:2], "input": "input-modified"}) else 0
+        del keep
+    return found
 
 
 def replay(ctx, obj):
     spec = (obj["op"], obj["order"], obj["boundary"], tuple(obj["shape"]), tuple(obj["shape"]))
-    n = search(ctx, 3)
+    n = search(ctx, 3) + operator_probe(ctx, 8)
     print("replay: %d violation(s) now" % n)
     return 1 if n else 0
 
